@@ -128,11 +128,13 @@ HDafOps  == {Op("daf", "L", HPool[p], flt) : p \in 1..Len(HPool), flt \in {FltDe
             \cup {Op("daf", "S", << >>, FltDefault)}
             \cup {Op("daf", "S", << >>, flt) : flt \in HSelFilters}
             \cup {Op("daf", "R", HPool[p], FltSet(<< "i" >>)) : p \in 1..Len(HPool)}
-HAlias == {0, 1}
-\* classes of histories: [ops allowed, depth]
-HClasses == CASE Tier = "quick"    -> {[c |-> "mix", d |-> 2], [c |-> "fuse", d |-> 3]}
-              [] Tier = "thorough" -> {[c |-> "mix", d |-> 3], [c |-> "fuse", d |-> 4]}
-              [] Tier = "sim"      -> {[c |-> "mix", d |-> 5]}
+\* classes of histories: [ops allowed, depth, alias: 1 = base streams built once per history
+\* (statement objects shared between uses), 0 = rebuilt for every use]
+HClasses == CASE Tier = "quick"    -> {[c |-> "mix", d |-> 2, al |-> a] : a \in {0, 1}}
+                                      \cup {[c |-> "fuse", d |-> 3, al |-> a] : a \in {0, 1}}
+              [] Tier = "thorough" -> {[c |-> "mix", d |-> 3, al |-> 1], [c |-> "mix", d |-> 2, al |-> 0]}
+                                      \cup {[c |-> "fuse", d |-> 4, al |-> a] : a \in {0, 1}}
+              [] Tier = "sim"      -> {[c |-> "mix", d |-> 5, al |-> a] : a \in {0, 1}}
 HOps(c) == IF c = "fuse" THEN HFuseOps ELSE HFuseOps \cup HDafOps
 
 (***************************************************************************)
@@ -221,13 +223,13 @@ LStream(c) == [p \in 1..c.n |->
 (***************************************************************************)
 Init ==
     IF Tier = "sim"
-    THEN mode = "H" /\ st \in {[cls |-> c, init |-> HPool[p], ops |-> << >>, alias |-> al] :
-                                  c \in HClasses, p \in 1..Len(HPool), al \in HAlias}
+    THEN mode = "H" /\ st \in {[cls |-> c, init |-> HPool[p], ops |-> << >>, alias |-> c.al] :
+                                  c \in HClasses, p \in 1..Len(HPool)}
     ELSE
     \/ "F" \in Modes /\ mode = "F" /\ st \in {[SA |-> S, SB |-> << >>, stage |-> 0] : S \in SkelsA}
     \/ "D" \in Modes /\ mode = "D" /\ st \in {[SA |-> S, SB |-> << >>, flt |-> FltDefault, stage |-> 0] : S \in DStreamsA}
-    \/ "H" \in Modes /\ mode = "H" /\ st \in {[cls |-> c, init |-> HPool[p], ops |-> << >>, alias |-> al] :
-                                c \in HClasses, p \in 1..Len(HPool), al \in HAlias}
+    \/ "H" \in Modes /\ mode = "H" /\ st \in {[cls |-> c, init |-> HPool[p], ops |-> << >>, alias |-> c.al] :
+                                c \in HClasses, p \in 1..Len(HPool)}
     \/ "P" \in Modes /\ mode = "P" /\ st \in {[SA |-> S, SB |-> << >>, flt |-> FltDefault, shape |-> sh, stage |-> 0] :
                                 S \in PInits, sh \in PShapes}
     \/ "R" \in Modes /\ mode = "R" /\ st \in {[s |-> s] : s \in RStmts}
@@ -309,11 +311,14 @@ AlgoRefinesMeaning ==
           DotImplEdges(GStream(st.n, st.d)) = TR(DepEdges(GStream(st.n, st.d)))
     /\ mode = "L" => DotImplEdges(LStream(st)) = TR(DepEdges(LStream(st)))
 
-\* what the transcription of the code as it is (with Dev_ReadsIgnoreLhs) predicts
+\* what the transcription of the code as it is predicts.  The named deviation
+\* Dev_ReadsIgnoreLhs was repaired in /repo (737009d, findings C20-F1..F3 "fixed"), so the
+\* code as it is no longer has it; CodeHasDev = TRUE gives the prediction for the old code.
+CodeHasDev == FALSE
 Pred ==
-    CASE mode = "D" -> DisClause(st.SA, st.SB, st.flt, DisImplResult(st.SA, st.SB, st.flt, TRUE),
-                                 DisImplMap(st.SA, st.SB, st.flt, TRUE))
-      [] mode = "R" -> RWClause(st.s, ReadsImpl(st.s, TRUE), WritesImpl(st.s))
+    CASE mode = "D" -> DisClause(st.SA, st.SB, st.flt, DisImplResult(st.SA, st.SB, st.flt, CodeHasDev),
+                                 DisImplMap(st.SA, st.SB, st.flt, CodeHasDev))
+      [] mode = "R" -> RWClause(st.s, ReadsImpl(st.s, CodeHasDev), WritesImpl(st.s))
       [] mode = "F" -> "OK"
       [] mode = "G" -> "OK"
       [] mode = "L" -> "OK"
